@@ -58,8 +58,9 @@ def lin_repr(t: Any) -> str:
 
 
 class GroupHooks(Hooks):
-    def __init__(self, repo: Repo, inline_fees: bool = False, post_may_fail: bool = False, simulation_fails: bool = False):
+    def __init__(self, repo: Repo, inline_fees: bool = False, post_may_fail: bool = False, simulation_fails: bool = False, mempool_fails: bool = False):
         self.repo = repo
+        self.mempool_fails = mempool_fails
         self.simulation_fails = simulation_fails
         self.inline_fees = inline_fees
         self.post_may_fail = post_may_fail
@@ -76,6 +77,14 @@ class GroupHooks(Hooks):
         if self.inline_fees and fi.module.name == 'pytezos.operation.fees':
             return True
         return False
+
+    def _node_error(self, callee, what: str):
+        from .absint import ExcVal, Raised
+
+        kind, ecls = self.repo.lookup(self.repo.resolve_name(self.repo.modules[G.rsplit('.', 1)[0]], 'RpcError'))  # the error class the group module itself names
+        if kind != 'class':
+            raise AnalysisError('the RPC error class is not visible from the operation group module: idiom not modelled')
+        raise Raised(ExcVal(ecls.qualname, (what,), origin='the node'))
 
     def truth(self, it, term):
         if isinstance(term, Sym) and term.name in ('key', 'shell'):
@@ -129,6 +138,8 @@ class GroupHooks(Hooks):
                 return Sym('protocol', 'str')
             if q == f'{CTX}.get_counter_offset':
                 it.event('read-mempool-offset')
+                if self.mempool_fails:
+                    self._node_error(callee, 'pending_operations failed')
                 return Sym('OFFSET', 'int')
             if q == f'{G}.binary_payload':
                 return Sym('payload', 'bytes')
@@ -137,11 +148,7 @@ class GroupHooks(Hooks):
             if q == f'{G}.run':
                 it.event('simulate')
                 if self.simulation_fails:
-                    from .absint import ExcVal, Raised
-                    kind, ecls = self.repo.lookup(self.repo.resolve_name(callee.fi.module, 'RpcError'))  # the error class the group module itself names
-                    if kind != 'class':
-                        raise AnalysisError('the RPC error class is not visible from the operation group module: idiom not modelled')
-                    raise Raised(ExcVal(ecls.qualname, ('run_operation failed',), origin='the node'))
+                    self._node_error(callee, 'run_operation failed')
                 # the simulation echoes the filled contents with metadata
                 me = callee.self_val
                 return {'contents': [dict(c, metadata=Sym(f'meta{i}')) for i, c in enumerate(me.fields['contents'])]}
